@@ -325,7 +325,8 @@ Proof. intros old tree g [<-|[<-|[<-|[]]]]; vm_compute; reflexivity. Qed.
 (* ImageConfiguration.Validate, accounts part: a user needs a name and a uid
    other than 0, a group needs a name; [validate_forbidden] lists the
    (expression, characters) pairs of the strings.ContainsAny tests goextract found
-   in Validate — none today *)
+   in Validate (fix 3dfd539: ':' and blanks in names, shells, members, ':' and
+   newline in homes, ',' in members; none before) *)
 Definition chars_for (k : string) : string :=
   String.concat "" (List.map snd (filter (fun kv : string * string => String.eqb (fst kv) k) validate_forbidden)).
 Fixpoint contains_any (s chars : string) : bool :=
@@ -352,25 +353,160 @@ Definition passwd_after (users : list cuser) : option string :=
   | _ => None
   end.
 
-(* finding C13-F5 on the model: fields are written verbatim.  While Validate
-   has no test for them (validate_forbidden = []):
-   - a shell holding a newline adds a whole line: the file re-reads as the
-     configured user FOLLOWED BY an entry nobody configured — here one with uid
-     0, which Validate refuses for configured users;
-   - a name holding ':' gives a line with more fields than the reader accepts:
-     the image's passwd cannot be read at all. *)
+(* ---- Validate as repaired (fix 3dfd539, was finding C13-F5) ----------------------------------------------
+   The strings.ContainsAny tests goextract reads from Validate forbid ':' and every
+   ASCII blank (newline included) in user names, shells, group names and members
+   (',' as well in members), ':' and newline in home directories.  Hence every
+   configuration Validate accepts is CLEAN, and (parsed entries being well-formed)
+   the files mutateAccounts writes re-read as old ++ configured, with no entry
+   nobody configured. *)
+Definition blanks : list ascii := List.map ascii_of_N [9; 10; 11; 12; 13; 32]%N.
+Fixpoint no_blank (s : string) : bool :=
+  match s with EmptyString => true | String a r => negb (ascii_space a) && no_blank r end.
+
+Lemma ascii_space_blanks : forall a, ascii_space a = true -> In a blanks.
+Proof. intros [[] [] [] [] [] [] [] []] H; vm_compute in H; try discriminate; vm_compute; tauto. Qed.
+
+Lemma contains_any_false : forall s chars, contains_any s chars = false -> forall c, has_char c chars = true -> has_char c s = false.
+Proof.
+  intros s. induction chars as [|x r IH]; intros H c Hc; [discriminate|]. cbn [contains_any] in H. apply orb_false_iff in H. destruct H as [H1 H2].
+  cbn [has_char] in Hc. apply orb_true_iff in Hc. destruct Hc as [Hc|Hc]; [apply Ascii.eqb_eq in Hc; subst x; exact H1 | apply IH; assumption].
+Qed.
+Lemma has_char_head : forall a s, has_char a (String a s) = true.
+Proof. intros. cbn [has_char]. rewrite Ascii.eqb_refl. reflexivity. Qed.
+Lemma no_blank_of : forall s, (forall c, In c blanks -> has_char c s = false) -> no_blank s = true.
+Proof.
+  induction s as [|a r IH]; intro H; [reflexivity|]. cbn [no_blank]. apply andb_true_iff. split.
+  - apply negb_true_iff. destruct (ascii_space a) eqn:E; [|reflexivity]. rewrite <- (H a (ascii_space_blanks a E)). symmetry. apply has_char_head.
+  - apply IH. intros c Hc. specialize (H c Hc). cbn [has_char] in H. apply orb_false_iff in H. apply H.
+Qed.
+Lemma no_blank_ends : forall s, no_blank s = true -> starts_space s = false /\ ends_space s = false.
+Proof.
+  intros s H. split.
+  - destruct s as [|a r]; [reflexivity|]. cbn [no_blank] in H. apply andb_true_iff in H. destruct H as [H _]. apply negb_true_iff in H. exact H.
+  - induction s as [|a r IH]; [reflexivity|]. cbn [no_blank] in H. apply andb_true_iff in H. destruct H as [Ha Hr]. apply negb_true_iff in Ha.
+    destruct r as [|b r']; [exact Ha | exact (IH Hr)].
+Qed.
+Lemma no_blank_app : forall a b, no_blank (a ++ b)%string = no_blank a && no_blank b.
+Proof. induction a as [|x a IH]; intro b; [reflexivity|]. cbn [append no_blank]. rewrite IH, andb_assoc. reflexivity. Qed.
+Lemma no_blank_join : forall ms, forallb no_blank ms = true -> no_blank (join "," ms) = true.
+Proof.
+  induction ms as [|m t IH]; intro H; [reflexivity|]. cbn [forallb] in H. apply andb_true_iff in H. destruct H as [Hm Ht].
+  destruct t as [|m' t']; [exact Hm|].
+  change (join "," (m :: m' :: t')) with (m ++ "," ++ join "," (m' :: t'))%string. rewrite !no_blank_app, Hm, (IH Ht). reflexivity.
+Qed.
+
+(* what the character sets read from the source forbid (the [reflexivity] steps
+   below evaluate [validate_forbidden]: they fail should a test disappear) *)
+Definition forbids (k : string) (cs : list ascii) : bool := forallb (fun c => has_char c (chars_for k)) cs.
+Lemma validate_forbidden_sets :
+  forbids "u.UserName" (":"%char :: blanks) = true /\ forbids "u.Shell" (":"%char :: blanks) = true /\
+  forbids "u.HomeDir" [":"%char; nl] = true /\ forbids "g.GroupName" (":"%char :: blanks) = true /\
+  forbids "m" (":"%char :: ","%char :: blanks) = true.
+Proof. repeat split; vm_compute; reflexivity. Qed.
+
+Lemma allowed_field : forall s k cs, forbids k cs = true -> contains_any s (chars_for k) = false ->
+  forall c, In c cs -> has_char c s = false.
+Proof.
+  intros s k cs Hf Hc c Hin. eapply contains_any_false; [exact Hc|]. unfold forbids in Hf. rewrite forallb_forall in Hf. apply Hf. exact Hin.
+Qed.
+Lemma nl_blank : In nl blanks. Proof. vm_compute. tauto. Qed.
+
+Theorem validated_user_clean : forall u,
+  validate_user u = true -> (cu_uid u < 4294967296)%N -> (forall g, cu_gid u = Some g -> (g < 4294967296)%N) -> clean_user u = true.
+Proof.
+  intros u H Hu Hg. destruct validate_forbidden_sets as (Fn & Fs & Fh & _ & _).
+  unfold validate_user in H. repeat (apply andb_true_iff in H; destruct H as [H ?]).
+  repeat match goal with X : negb _ = true |- _ => apply negb_true_iff in X end.
+  match goal with X : contains_any (cu_name u) _ = false |- _ => pose proof (allowed_field _ _ _ Fn X) as An end.
+  match goal with X : contains_any (cu_shell u) _ = false |- _ => pose proof (allowed_field _ _ _ Fs X) as As end.
+  match goal with X : contains_any (cu_home u) _ = false |- _ => pose proof (allowed_field _ _ _ Fh X) as Ah end.
+  assert (Nn : no_blank (cu_name u) = true) by (apply no_blank_of; intros c Hc; apply An; right; exact Hc).
+  assert (Ns : no_blank (cu_shell u) = true) by (apply no_blank_of; intros c Hc; apply As; right; exact Hc).
+  assert (Cn : has_char ":"%char (cu_name u) = false) by (apply An; left; reflexivity).
+  assert (Ln : has_char nl (cu_name u) = false) by (apply An; right; exact nl_blank).
+  assert (Cs : has_char ":"%char (cu_shell u) = false) by (apply As; left; reflexivity).
+  assert (Ls : has_char nl (cu_shell u) = false) by (apply As; right; exact nl_blank).
+  assert (Ch : has_char ":"%char (cu_home u) = false) by (apply Ah; left; reflexivity).
+  assert (Lh : has_char nl (cu_home u) = false) by (apply Ah; right; left; reflexivity).
+  unfold clean_user, wf_user_fields, user_to_entry, field_ok. cbn [ue_name ue_pw ue_info ue_home ue_shell ue_uid ue_gid].
+  rewrite Cn, Ln. change (has_char ":"%char entry_password) with false. change (has_char nl entry_password) with false.
+  change (has_char ":"%char entry_info) with false. change (has_char nl entry_info) with false.
+  rewrite (proj1 (no_blank_ends _ Nn)).
+  assert (Hhome : has_char ":"%char (if String.eqb (cu_home u) "" then (home_prefix ++ cu_name u)%string else cu_home u) = false /\
+                  has_char nl (if String.eqb (cu_home u) "" then (home_prefix ++ cu_name u)%string else cu_home u) = false).
+  { destruct (String.eqb (cu_home u) ""); [|auto]. rewrite !has_char_app, Cn, Ln. split; reflexivity. }
+  destruct Hhome as (Hh1 & Hh2). rewrite Hh1, Hh2.
+  assert (Hshell : has_char ":"%char (if String.eqb (cu_shell u) "" then default_shell else cu_shell u) = false /\
+                   has_char nl (if String.eqb (cu_shell u) "" then default_shell else cu_shell u) = false /\
+                   ends_space (if String.eqb (cu_shell u) "" then default_shell else cu_shell u) = false).
+  { destruct (String.eqb (cu_shell u) ""); [repeat split; reflexivity|]. repeat split; auto. apply (no_blank_ends _ Ns). }
+  destruct Hshell as (Hs1 & Hs2 & Hs3). rewrite Hs1, Hs2, Hs3.
+  apply N.ltb_lt in Hu. rewrite Hu. cbn [negb andb].
+  destruct (cu_gid u) as [g|]; [apply N.ltb_lt, Hg; reflexivity | exact Hu].
+Qed.
+
+Theorem validated_group_clean : forall g, validate_group g = true -> (cg_gid g < 4294967296)%N -> clean_group g = true.
+Proof.
+  intros g H Hg. destruct validate_forbidden_sets as (_ & _ & _ & Fg & Fm).
+  unfold validate_group in H. repeat (apply andb_true_iff in H; destruct H as [H ?]).
+  repeat match goal with X : negb _ = true |- _ => apply negb_true_iff in X end.
+  match goal with X : contains_any (cg_name g) _ = false |- _ => pose proof (allowed_field _ _ _ Fg X) as An end.
+  assert (Nn : no_blank (cg_name g) = true) by (apply no_blank_of; intros c Hc; apply An; right; exact Hc).
+  assert (Cn : has_char ":"%char (cg_name g) = false) by (apply An; left; reflexivity).
+  assert (Ln : has_char nl (cg_name g) = false) by (apply An; right; exact nl_blank).
+  match goal with X : forallb _ (cg_members g) = true |- _ => rename X into Hm end.
+  assert (Mok : forallb member_ok (cg_members g) = true /\ forallb no_blank (cg_members g) = true).
+  { rewrite !forallb_forall in *. split; intros m Hin; specialize (Hm m Hin); apply negb_true_iff in Hm; pose proof (allowed_field _ _ _ Fm Hm) as Am.
+    - unfold member_ok. rewrite (Am ":"%char), (Am nl), (Am comma); [reflexivity | right; left; reflexivity | right; right; exact nl_blank | left; reflexivity].
+    - apply no_blank_of. intros c Hc. apply Am. right; right. exact Hc. }
+  destruct Mok as (M1 & M2).
+  unfold clean_group, wf_group_fields, group_to_entry, field_ok. cbn [ge_name ge_pw ge_gid ge_members].
+  rewrite Cn, Ln, M1. change (has_char ":"%char group_password) with false. change (has_char nl group_password) with false.
+  rewrite (proj1 (no_blank_ends _ Nn)), (proj2 (no_blank_ends _ (no_blank_join _ M2))).
+  apply N.ltb_lt in Hg. rewrite Hg. reflexivity.
+Qed.
+
+Definition ids_in_range (users : list cuser) (groups : list cgroup) : Prop :=
+  (forall u, In u users -> (cu_uid u < 4294967296)%N /\ forall g, cu_gid u = Some g -> (g < 4294967296)%N) /\
+  (forall g, In g groups -> (cg_gid g < 4294967296)%N).
+
+Theorem validated_accounts_clean : forall users groups,
+  validate_accounts users groups = true -> ids_in_range users groups ->
+  forallb clean_user users = true /\ forallb clean_group groups = true.
+Proof.
+  intros users groups H (Ru & Rg). unfold validate_accounts in H. apply andb_true_iff in H. destruct H as [Hu Hg].
+  rewrite !forallb_forall in *. split.
+  - intros u Hin. destruct (Ru u Hin). apply validated_user_clean; auto.
+  - intros g Hin. apply validated_group_clean; auto.
+Qed.
+
+(* the old witnesses of finding C13-F5 are refused now *)
 Definition inject_user : cuser := mkCU "app" 1000 None (String.append "/bin/sh" (String nl "root2:x:0:0::/root:/bin/sh")) "".
 Definition colon_user : cuser := mkCU "a:b" 1000 None "" "".
-Lemma separators_refuted :
-  validate_forbidden = [] ->
-  validate_accounts [inject_user] [] = true /\ validate_accounts [colon_user] [] = true /\
+Lemma separators_refused :
+  validate_accounts [inject_user] [] = false /\ validate_accounts [colon_user] [] = false /\
+  validate_accounts [mkCU " app" 1000 None "" "/home/app"] [] = false /\ validate_accounts [mkCU "svc" 1001 None "/bin/sh " ""] [] = false /\
+  validate_accounts [] [mkCG "g:h" 7 []] = false /\ validate_accounts [] [mkCG "g" 7 ["a,b"]] = false /\
+  validate_accounts [] [mkCG "g" 7 [String.append "a" (String nl "root:x:0:app")]] = false.
+Proof. repeat split; vm_compute; reflexivity. Qed.
+
+(* HYPOTHETICAL shape (not the build pipeline): a configuration that does not go
+   through Validate — mutateAccounts called directly, as the accounts stage of the
+   harness does, or Validate without its character tests ([validate_basic], the
+   shape before fix 3dfd539).  mutateAccounts itself still writes fields
+   verbatim; Validate is the only protection. *)
+Definition validate_basic (users : list cuser) (groups : list cgroup) : bool :=
+  forallb (fun u => negb (String.eqb (cu_name u) "") && negb (N.eqb (cu_uid u) 0)) users &&
+  forallb (fun g => negb (String.eqb (cg_name g) "")) groups.
+Lemma hypothetical_unvalidated_separators :
+  validate_basic [inject_user] [] = true /\ validate_basic [colon_user] [] = true /\
   clean_user inject_user = false /\ clean_user colon_user = false /\
   (exists txt, passwd_after [inject_user] = Some txt /\
      parse_users txt = Some [user_to_entry (mkCU "app" 1000 None "/bin/sh" ""); mkUE "root2" "x" 0 0 "" "/root" "/bin/sh"] /\
      parse_users txt <> Some (List.map user_to_entry [inject_user])) /\
   (exists txt, passwd_after [colon_user] = Some txt /\ parse_users txt = None).
 Proof.
-  intro E. unfold validate_accounts, validate_user, validate_group, chars_for. rewrite E.
   split; [vm_compute; reflexivity|]. split; [vm_compute; reflexivity|].
   split; [vm_compute; reflexivity|]. split; [vm_compute; reflexivity|]. split.
   - eexists. split; [vm_compute; reflexivity|]. split; [vm_compute; reflexivity|]. vm_compute. discriminate.
@@ -385,4 +521,21 @@ Theorem clean_accounts_reread : forall txt old users,
 Proof.
   intros txt old users Hp Hc Hs. eapply reread_parsed_users; eauto.
   rewrite forallb_forall in *. intros e He. apply in_map_iff in He. destruct He as (u & <- & Hu). apply (Hc u Hu).
+Qed.
+
+(* accepted by Validate ==> the written files re-read as old ++ configured *)
+Theorem validated_accounts_reread : forall utxt gtxt oldu oldg users groups,
+  validate_accounts users groups = true -> ids_in_range users groups ->
+  parse_users utxt = Some oldu -> parse_groups gtxt = Some oldg ->
+  forallb short_user (oldu ++ List.map user_to_entry users) = true ->
+  forallb short_group (oldg ++ List.map group_to_entry groups) = true ->
+  parse_users (write_users (oldu ++ List.map user_to_entry users)) = Some (oldu ++ List.map user_to_entry users) /\
+  parse_groups (write_groups (oldg ++ List.map group_to_entry groups)) =
+    Some (List.map norm_group (oldg ++ List.map group_to_entry groups)).
+Proof.
+  intros utxt gtxt oldu oldg users groups Hv Hr Hpu Hpg Hsu Hsg.
+  destruct (validated_accounts_clean _ _ Hv Hr) as (Cu & Cg). split.
+  - eapply clean_accounts_reread; eauto.
+  - eapply reread_parsed_groups; eauto.
+    rewrite forallb_forall in *. intros e He. apply in_map_iff in He. destruct He as (g & <- & Hg). apply (Cg g Hg).
 Qed.
